@@ -38,6 +38,7 @@ func c20(r *core.Run) {
 	r.Assumptions = []string{"SHA-256 collision resistance", T5}
 	r.NotDecided = []string{"distinct segment sequences give distinct addresses (collision resistance / separator injectivity)"}
 	r.Rule("C20/R1", "fold-step agreement: step(total, seg) of the path hasher's loop ≡ combiner(total, hex(SHA256(seg))) as terms; the fold starts from \"\" and iterates Split(TrimSuffix(path, \"/\"), \"/\")")
+	r.Rule("C20/R4", "client commands hash the path they are given: every call of the path hasher in x/filetree/client is handed the user's argument, cut at most by a trailing \"/\" (no re-encoding, no other rewriting)")
 	r.Rule("C20/R3", "client-side splitters (string -> parent address, child hash) in x/filetree derive both parts from the hasher's own segmentation: only segment-preserving primitives (TrimSuffix, Split, Join, index/slice, len, SHA-256, hex) and, in the Split/Join idiom, exactly segments[:n-1] and segments[n-1]; or they delegate to another checked splitter")
 	r.Rule("C20/R2", "posting uses that step: the stored Address, the returned Path and the owner-hash input are one value = combiner(msg.HashParent, msg.HashChild); the root address is the path hasher of a constant")
 	// find combiner and path hasher in x/filetree/types by shape
@@ -61,6 +62,31 @@ func c20(r *core.Run) {
 			}
 		}
 	}
+	// the fold may be delegated to a higher-order helper: fold(items, initial, step) with a loop acc = step(acc, item)
+	var foldUpdate, foldInit string
+	if hasher == nil {
+		for _, fn := range p.Funcs {
+			if core.RelPkg(core.FnPkgPath(fn)) != "x/filetree/types" || p.IsGenerated(fn) || fn.Synthetic != "" {
+				continue
+			}
+			if len(fn.Params) != 1 || fn.Params[0].Type().String() != "string" || fn.Signature.Results().Len() != 1 || fn.Signature.Results().At(0).Type().String() != "string" {
+				continue
+			}
+			for _, b := range fn.Blocks {
+				ret, ok := b.Instrs[len(b.Instrs)-1].(*ssa.Return)
+				if !ok {
+					continue
+				}
+				call, ok := ret.Results[0].(*ssa.Call)
+				if !ok {
+					continue
+				}
+				if ut, it, ok := foldThroughHelper(p, call); ok {
+					hasher, foldUpdate, foldInit = fn, ut, it
+				}
+			}
+		}
+	}
 	if combiner == nil {
 		r.Violation("C20/R1", "filetree:combiner", "", "no function of shape hex(SHA256(a ‖ b)) in x/filetree/types (one fold step)")
 		return
@@ -69,6 +95,12 @@ func c20(r *core.Run) {
 	r.Ok("C20/R1", "filetree:combiner", p.Pos(combiner.Pos()), "combiner(a,b) = "+foldStepTerm)
 	if hasher == nil {
 		r.Violation("C20/R1", "filetree:path-hasher", "", "no path hasher (string -> loop-carried string) in x/filetree/types")
+	} else if hasherPhi == nil {
+		r.Analysed(core.FnName(hasher))
+		segTerm := `elem(strings.Split(strings.TrimSuffix(P0,"/"),"/"))`
+		want := strings.Replace(strings.Replace(foldStepTerm, "P0", "ACC", 1), "P1", "hex(sha256.New("+segTerm+"))", 1)
+		r.Check(foldUpdate == want, "C20/R1", "filetree:fold-step≡combiner", p.Pos(hasher.Pos()), "update term = "+foldUpdate, "the path hasher's fold step is not combiner(total, hex(SHA256(segment))) over Split(TrimSuffix(path,\"/\"),\"/\"): got "+foldUpdate+" want "+want)
+		r.Check(foldInit == `""`, "C20/R1", "filetree:fold-start", p.Pos(hasher.Pos()), "fold starts from the empty string", "the fold does not start from the empty string: "+foldInit)
 	} else {
 		r.Analysed(core.FnName(hasher))
 		var init, update ssa.Value
@@ -88,6 +120,42 @@ func c20(r *core.Run) {
 		r.Check(ut == want, "C20/R1", "filetree:fold-step≡combiner", p.Pos(hasher.Pos()), "update term = "+ut, "the path hasher's fold step is not combiner(total, hex(SHA256(segment))) over Split(TrimSuffix(path,\"/\"),\"/\"): got "+ut+" want "+want)
 		it := core.NewTermBuilder(p).Term(init)
 		r.Check(it == `""`, "C20/R1", "filetree:fold-start", p.Pos(hasher.Pos()), "fold starts from the empty string", "the fold does not start from the empty string: "+it)
+	}
+	// R4 client-side callers of the hasher hand it the user's path
+	if hasher != nil {
+		nCalls := 0
+		for _, fn := range p.Funcs {
+			if !strings.HasPrefix(core.RelPkg(core.FnPkgPath(fn)), "x/filetree/client") || p.IsGenerated(fn) {
+				continue
+			}
+			allInstrs(fn, func(in ssa.Instruction) {
+				c, ok := in.(*ssa.Call)
+				if !ok || len(c.Call.Args) != 1 {
+					return
+				}
+				isHasher := false
+				for _, cal := range p.Callees(c) {
+					if cal == hasher {
+						isHasher = true
+					}
+				}
+				if !isHasher {
+					return
+				}
+				nCalls++
+				tb := core.NewTermBuilder(p)
+				term := tb.Term(c.Call.Args[0])
+				rest := term
+				for strings.HasPrefix(rest, "strings.TrimSuffix(") && strings.HasSuffix(rest, `,"/")`) {
+					rest = rest[len("strings.TrimSuffix(") : len(rest)-len(`,"/")`)]
+				}
+				// what remains is the user's argument: a parameter, an element of the argument list, a flag value
+				plain := !strings.Contains(rest, "runes(") && !strings.Contains(rest, "strings.") && !strings.Contains(rest, "concat(") && !strings.Contains(rest, "alt(") && !strings.Contains(rest, "⊤")
+				r.Check(plain, "C20/R4", core.FnName(fn)+":hashes-the-given-path", p.InstrPos(c), "MerklePath("+term+")",
+					"a client command hashes "+term+" instead of the path it was given (cut at most by one trailing \"/\"): for paths where the two differ the address it puts into the message is not the one the chain stores the entry under")
+			})
+		}
+		r.Floor("C20/R4", nCalls, 1, "client-side calls of the path hasher")
 	}
 	// R3 client-side splitters: (parent address, child hash) derived from one readable path
 	if hasher != nil {
@@ -129,6 +197,22 @@ func c20(r *core.Run) {
 				wantChild := "hex(sha256.New(elem(" + S + "," + last + ")))"
 				// parent: the hasher's fold over all segments but the last
 				ph, isPhi := ret.Results[0].(*ssa.Phi)
+				if fc, isCall := ret.Results[0].(*ssa.Call); isCall {
+					// the fold delegated to a higher-order helper: fold(segments[:n-1], "", step)
+					if ut, it, okF := foldThroughHelperB(p, fc, true); okF {
+						okParent := false
+						for _, lo := range []string{"0", ""} {
+							seg := "hex(sha256.New(elem(slice(" + S + "," + lo + "," + last + "))))"
+							if ut == strings.Replace(strings.Replace(foldStepTerm, "P0", "ACC", 1), "P1", seg, 1) {
+								okParent = true
+							}
+						}
+						r.Check(okParent && it == `""` && child == wantChild, "C20/R3", construct, p.Pos(fn.Pos()),
+							"parent = fold of combiner over segments[:n-1] starting from \"\", child = hex(SHA256(segments[n-1])), over the hasher's own segmentation",
+							"the splitter does not cut the hasher's segmentation into (fold of all but the last segment, hash of the last segment): parent step="+ut+" start="+it+" child="+child)
+						continue
+					}
+				}
 				if !isPhi || !core.InCycle(ph.Block()) {
 					reparsed := ""
 					allInstrs(fn, func(in ssa.Instruction) {
@@ -243,8 +327,17 @@ func c20(r *core.Run) {
 				tbc.Term(a[0]) == mp+".HashParent" && tbc.Term(a[1]) == mp+".HashChild"
 			r.Check(ok, "C20/R2", h.Key()+":combiner-arguments", p.InstrPos(step), "combiner(msg.HashParent, msg.HashChild)", "the entry address is not combiner(msg.HashParent, msg.HashChild), the two message fields as they are, in that order (a substituted parent — e.g. the root folder for an empty HashParent — files a one-segment path under another path's address)")
 			// isStep: v is the combiner's result, in the unit or (in the handler) the unit's result that carries it
+			stepTerm := tbc.Term(step)
 			isStep := func(v ssa.Value) bool {
 				if core.SameValue(v, step) {
+					return true
+				}
+				// the same value carried in a field of a local record or of the record a helper returns: equal terms
+				tb := outer
+				if vi, isIn := v.(ssa.Instruction); isIn && hop != nil && vi.Parent() == unit {
+					tb = tbc
+				}
+				if t := tb.Term(v); t == stepTerm && !strings.Contains(t, "⊤") && !strings.Contains(t, "φ") {
 					return true
 				}
 				if hop != nil {
@@ -320,7 +413,7 @@ func c20(r *core.Run) {
 			allInstrs(unit, func(in ssa.Instruction) {
 				if c, ok := in.(*ssa.Call); ok && c != step {
 					for _, a := range c.Call.Args {
-						if core.SameValue(a, step) && len(p.Callees(c)) == 1 && p.Callees(c)[0] != combiner && c.Type().String() == "string" {
+						if isStep(a) && len(p.Callees(c)) == 1 && p.Callees(c)[0] != combiner && c.Type().String() == "string" {
 							okOwner = true
 						}
 					}
@@ -347,4 +440,101 @@ func c20(r *core.Run) {
 		}
 		r.Check(found, "C20/R2", h.Key()+":root-address", p.Pos(h.Fn.Pos()), "root address = pathHasher(constant)", "the root folder's address is not the path hasher applied to a constant path")
 	}
+}
+
+// foldThroughHelper: call is fold(items, initial, step) where the callee loops acc = step(acc, item) over all items
+// from an accumulator that starts as `initial` and returns it. Returns the update term (step applied to ACC and an
+// element of the items argument, the step function executed in line) and the term of the initial value.
+func foldThroughHelper(p *core.Program, call *ssa.Call) (update, init string, ok bool) {
+	return foldThroughHelperB(p, call, false)
+}
+
+// foldThroughHelperB: with bounds, slice bounds of the items argument are kept in the terms.
+func foldThroughHelperB(p *core.Program, call *ssa.Call, bounds bool) (update, init string, ok bool) {
+	cs := p.Callees(call)
+	if len(cs) != 1 || cs[0].Blocks == nil {
+		return "", "", false
+	}
+	g := cs[0]
+	var ph *ssa.Phi
+	for _, b := range g.Blocks {
+		if ret, isRet := b.Instrs[len(b.Instrs)-1].(*ssa.Return); isRet && len(ret.Results) == 1 {
+			if q, isPhi := ret.Results[0].(*ssa.Phi); isPhi && core.InCycle(q.Block()) && len(q.Edges) == 2 {
+				ph = q
+			}
+		}
+	}
+	if ph == nil {
+		return "", "", false
+	}
+	var initV, updV ssa.Value
+	for i, e := range ph.Edges {
+		if core.SameLoop(ph.Block().Preds[i], ph.Block()) {
+			updV = e
+		} else {
+			initV = e
+		}
+	}
+	initP, isP := initV.(*ssa.Parameter)
+	step, isCall := updV.(*ssa.Call)
+	if !isP || !isCall || len(step.Call.Args) != 2 || step.Call.Args[0] != ssa.Value(ph) {
+		return "", "", false
+	}
+	stepP, isP := step.Call.Value.(*ssa.Parameter)
+	if !isP {
+		return "", "", false
+	}
+	// the second argument is the element of a range over a parameter
+	gtb := core.NewTermBuilder(p)
+	et := gtb.Term(step.Call.Args[1])
+	itemsIdx := -1
+	for i := range g.Params {
+		if et == fmt.Sprintf("elem(P%d)", i) {
+			itemsIdx = i
+		}
+	}
+	idxOf := func(q *ssa.Parameter) int {
+		for i, x := range g.Params {
+			if x == q {
+				return i
+			}
+		}
+		return -1
+	}
+	ii, si := idxOf(initP), idxOf(stepP)
+	args := call.Call.Args
+	if itemsIdx < 0 || ii < 0 || si < 0 || itemsIdx >= len(args) || ii >= len(args) || si >= len(args) {
+		return "", "", false
+	}
+	var stepFn *ssa.Function
+	switch a := args[si].(type) {
+	case *ssa.Function:
+		stepFn = a
+	case *ssa.MakeClosure:
+		stepFn, _ = a.Fn.(*ssa.Function)
+	case *ssa.ChangeType:
+		if f, isF := a.X.(*ssa.Function); isF {
+			stepFn = f
+		}
+	}
+	if stepFn == nil || stepFn.Blocks == nil || len(stepFn.Params) != 2 {
+		return "", "", false
+	}
+	var sret *ssa.Return
+	n := 0
+	for _, b := range stepFn.Blocks {
+		if rr, isRet := b.Instrs[len(b.Instrs)-1].(*ssa.Return); isRet {
+			sret, n = rr, n+1
+		}
+	}
+	if n != 1 || len(sret.Results) != 1 {
+		return "", "", false
+	}
+	outer := core.NewTermBuilder(p)
+	outer.Bounds = bounds
+	sub := core.NewTermBuilder(p)
+	sub.Bounds = bounds
+	sub.Names[stepFn.Params[0]] = "ACC"
+	sub.Names[stepFn.Params[1]] = "elem(" + outer.Term(args[itemsIdx]) + ")"
+	return sub.Term(sret.Results[0]), outer.Term(args[ii]), true
 }
